@@ -580,5 +580,107 @@ def replay(prop, path):
 
 
 def selftest():
-    print("selftest: see checks.py")
-    return 0
+    """Demonstrates the binding between recorded observations and the trace specifications: for a number of
+    properties one recorded field is corrupted (or one hook event altered / removed) in an otherwise accepted
+    observation of the real code, and the trace specification must reject exactly that line."""
+    import copy
+    def first(trace, pred):
+        for line in open(trace):
+            r = json.loads(line)
+            if pred(r):
+                return r
+        return None
+
+    def ensure(prop):
+        t = os.path.join(workdir(prop), "trace.ndjson")
+        if not os.path.exists(t):
+            res = Result(prop, "quick", 1)
+            rc = CHECKS[prop](res)
+            if rc != 0:
+                raise ToolError("selftest: %s quick did not pass (rc=%s)" % (prop, rc))
+        return t
+
+    def mut_c19(r):
+        r["jac"][0][2] ^= 1 << 21
+    def mut_c19_hook(r):          # the hook that names gradient slots is lost: slots cannot be attributed
+        for e in r["jac"]:
+            e[1] = "?"
+    def mut_c08_tri(r):
+        r["tris"][0], r["tris"][1] = r["tris"][1], r["tris"][0]
+    def mut_c08_collapse(r):
+        r["collapses"][0]["c"][0] = 90 if r["collapses"][0]["c"][0] != 90 else 165     # a two-vertex child mask
+    def mut_c17(r):
+        r["got"]["f"] = "y" if r["got"]["f"] != "y" else "z"
+    def mut_c01(r):
+        for op in r["asm"]:
+            if op[0] >= 3:
+                op[2] = (op[2] + 1) % max(int(r["n"]), 2)
+                return
+    def mut_c20(r):
+        r["trace"][0] = 1 if r["trace"][0] != 1 else 2
+    def mut_c14(r):
+        r["got"][0] ^= 1 << 20
+    def mut_c15(r):
+        r["words"][2] ^= 0x0100        # output register byte of the first operation word
+    def mut_c18(r):
+        r["flag"] = 1 - r["flag"]
+    def mut_c09(r):
+        r["digest"][0] ^= 1
+    def mut_c02_hook(r):          # a native call of the SIMD driver reaching past the end of the slices
+        r["calls"][-1]["count"] += 8
+
+    plans = [
+        ("C19", lambda r: r["status"] == "ok" and len(r["jac"]) > 0 and r["loose"] == 0, mut_c19, "jacobian"),
+        ("C19", lambda r: r["status"] == "ok" and len(r["jac"]) > 0, mut_c19_hook, "jacobian"),
+        ("C08", lambda r: r["status"] == "ok" and len(r["tris"]) >= 12, mut_c08_tri, ""),
+        ("C08", lambda r: r["status"] == "ok" and len(r.get("collapses", [])) > 0, mut_c08_collapse, "unsafe-collapse"),
+        ("C17", lambda r: r["status"] == "ok" and r["got"]["o"] == "var", mut_c17, "differs"),
+        ("C01", lambda r: r.get("err", "") == "" and int(r["n"]) >= 3 and any(op[0] >= 3 for op in r["asm"]) and len(r["asm"]) > 4, mut_c01, ""),
+        ("C20", lambda r: r.get("kind") == "point" and len(r.get("trace", [])) > 0 and r.get("err", "") == "", mut_c20, ""),
+        ("C14", lambda r: r["ok"] and r["kind"] == "point" and len(r["got"]) == 1, mut_c14, "value"),
+        ("C15", lambda r: r.get("ok") is True and not r.get("skip") and len(r["words"]) > 8, mut_c15, ""),
+        ("C18", lambda r: r["ev"] == "canvas2" and r["flag"] in (0, 1), mut_c18, ""),
+        ("C09", lambda r: r["result"] == "some" and r["threads"] != 0, mut_c09, "differs-from-sequential"),
+        ("C02", lambda r: r.get("ev") == "e2e" and r.get("kind") == "slice" and r.get("len", 0) >= 9 and len(r.get("calls", [])) > 0, mut_c02_hook, "driver"),
+    ]
+    bad = 0
+    done = 0
+    for prop, pred, mutate, clause in plans:
+        trace = ensure(prop)
+        if prop == "C17":
+            c17_meta(workdir(prop))
+        r = first(trace, pred)
+        if r is None:
+            log("selftest %s: no suitable recorded line (skipped)" % prop)
+            continue
+        wd = workdir(prop)
+        ok_file = os.path.join(wd, "selftest_ok.ndjson")
+        bad_file = os.path.join(wd, "selftest_bad.ndjson")
+        with open(ok_file, "w") as f:
+            f.write(json.dumps(r) + "\n")
+        m = copy.deepcopy(r)
+        mutate(m)
+        with open(bad_file, "w") as f:
+            f.write(json.dumps(m) + "\n")
+        stateful = prop == "C18"
+        if stateful:
+            # Trace_C18 replays the model next to the recording: keep the prefix of the history
+            lines = []
+            for line in open(trace):
+                q = json.loads(line)
+                if q.get("hist") == r.get("hist") and q["ev"] == r["ev"] and q["step"] <= r["step"]:
+                    lines.append(q)
+            with open(ok_file, "w") as f:
+                f.write("".join(json.dumps(q) + "\n" for q in lines))
+            with open(bad_file, "w") as f:
+                f.write("".join(json.dumps(q if q["id"] != r["id"] else m) + "\n" for q in lines))
+        _, rej_ok = validate("Trace_" + prop, ok_file, wd)
+        _, rej_bad = validate("Trace_" + prop, bad_file, wd)
+        good = (not rej_ok) and (r["id"] in rej_bad) and (clause == "" or any(clause in c for c in rej_bad[r["id"]]))
+        done += 1
+        log("selftest %s %s: original accepted=%s, corrupted rejected=%s %s -> %s" % (
+            prop, mutate.__name__, not rej_ok, r["id"] in rej_bad, rej_bad.get(r["id"], ""), "ok" if good else "BINDING NOT DEMONSTRATED"))
+        if not good:
+            bad += 1
+    log("selftest: %d corruptions tried, %d not rejected as expected" % (done, bad))
+    return 2 if bad else 0
